@@ -410,7 +410,7 @@ pub fn run(ctx: &mut Ctx) {
         }
         let mut rng = ctx.rng.fork();
         let t = match i % 6 {
-            _ if i % 1501 == 7 && !ctx.miri => gen::big_doc(&mut rng),
+            _ if i % 4001 == 7 && !ctx.miri => gen::big_doc(&mut rng, i % 3 == 0),
             0 => gen::doc(&mut rng, &gen::DocCfg { max_depth: 6, max_fan: 4, nonfinite: true, container_p: 6 }),
             1 => gen::doc(&mut rng, &gen::DocCfg { max_depth: 2, max_fan: 10, nonfinite: true, container_p: 3 }),
             2 => gen::scalar(&mut rng, true),
